@@ -1,7 +1,8 @@
 -- Battery of concrete escape attempts; each must be blocked in the default mode.
-function validate(ctx, content)
-  local out = {}
+local out = {}
+local function attempts(phase)
   local function try(name, f)
+    name = phase .. name
     local ok, res = pcall(f)
     if ok and res then out[#out+1] = name .. "=ESCAPED(" .. string.gsub(string.sub(tostring(res), 1, 40), "[|\n]", " ") .. ")" else out[#out+1] = name .. "=blocked" end
   end
@@ -22,5 +23,23 @@ function validate(ctx, content)
   try("_G.os", function() return rawget(_G, "os") end)
   try("_G.debug", function() return rawget(_G, "debug") end)
   try("_G.package", function() return rawget(_G, "package") end)
+end
+
+-- attempts while the chunk is loaded (top level), with functions captured at load time, and inside validate()
+attempts("load:")
+local captured = { dofile = dofile, loadfile = loadfile, require = require, io = io, os = os, package = package, debug = debug }
+
+function validate(ctx, content)
+  attempts("")
+  local function try(name, f)
+    local ok, res = pcall(f)
+    if ok and res then out[#out+1] = name .. "=ESCAPED(" .. string.gsub(string.sub(tostring(res), 1, 40), "[|\n]", " ") .. ")" else out[#out+1] = name .. "=blocked" end
+  end
+  try("captured:dofile", function() return captured.dofile("secret.lua") end)
+  try("captured:loadfile", function() local f = captured.loadfile("secret.lua"); return f and f() end)
+  try("captured:require", function() return captured.require("secret") end)
+  try("captured:io", function() return captured.io and captured.io.open("secret.lua", "r") end)
+  try("captured:os", function() return captured.os and captured.os.getenv("HOME") end)
+  try("captured:debug", function() return captured.debug and captured.debug.getregistry() end)
   return table.concat(out, "|")
 end
